@@ -302,7 +302,7 @@ struct StrSeq : HarnessBase {
 	}
 	void check_state() { for(int a = 0; a < 2; a++) check_owned(s(a), ref[a], "sequence"); if(res) res->outcomes.insert(std::to_string(ref[0].size()) + "/" + std::to_string(ref[1].size())); }
 	void final_check() { for(int a = 0; a < 2; a++) if(alive[a]) { s(a).~Str(); alive[a] = false; } raise_pending(); world_check_empty("string"); }
-	void canon(std::string &out) { world_canon(out); out += ref[0]; out.push_back('|'); out += ref[1]; out.push_back(s(0).data() ? '1' : '0'); out.push_back(s(1).data() ? '1' : '0'); }
+	void canon(std::string &out) { world_canon(out); GraphCanon gc; for(int a = 0; a < 2; a++) if(alive[a]) gc.root(store[a], sizeof(Str)); gc.emit(out); out += ref[0]; out.push_back('|'); out += ref[1]; }
 };
 
 static std::vector<Instance> instances(const std::string &tier) {
